@@ -240,3 +240,58 @@ pub fn run<A: Cx>(d: &mut Drv<A>, scale: usize, all_offsets: bool) {
 fn gcd(a: usize, b: usize) -> usize {
     if b == 0 { a } else { gcd(b, a % b) }
 }
+
+/// Sequences that STORE alternative bit patterns (reachable through a raw image only) against the
+/// sequences with the same symbols in their canonical patterns.  The property says they are equal and
+/// hash alike; the library compares stored bits.  A known finding (known_findings.json,
+/// D12-stored-alt-pattern-equality): every event that the finding explains carries the tag, so that
+/// any OTHER deviation is still reported.
+pub fn run_alt<A: Cx>(d: &mut Drv<A>) {
+    let alts = d.alt_patterns();
+    assert!(!alts.is_empty(), "harness: codec has no alternative patterns");
+    let all = d.patterns();
+    for n in [1usize, 2, 5, 64 / A::BITS as usize + 1] {
+        // at least one alternative pattern, the rest anything that decodes
+        let mut pats: Vec<u8> = (0..n).map(|_| *d.rng.pick(&all)).collect();
+        let p = d.rng.below(n);
+        pats[p] = *d.rng.pick(&alts);
+        let canon: Vec<u8> = pats.iter().map(|&p| A::try_from_bits(p).unwrap().to_bits()).collect();
+        // r1: canonical patterns; r0: the same symbols, stored as given
+        d.emit(json!({"op": "fromsyms", "dst": 1, "c": A::NAME, "via": "iter", "syms": canon}));
+        let tag = "stored-alt-pattern";
+        {
+            // (the view of r0 also reports that it is not == to the sequence rebuilt from its symbols)
+            let w = A::BITS as usize;
+            let nwords = (n * w + 63) / 64;
+            let mut words = vec![0u64; nwords];
+            for (i, &c) in pats.iter().enumerate() {
+                for b in 0..w {
+                    if (c >> b) & 1 == 1 {
+                        let pos = i * w + b;
+                        words[pos / 64] |= 1u64 << (pos % 64);
+                    }
+                }
+            }
+            let mut l = Vec::new();
+            for x in words {
+                for i in 0..4 {
+                    l.push((x >> (16 * i)) & 0xffff);
+                }
+            }
+            d.emit(json!({"op": "fromraw", "dst": 0, "c": A::NAME, "n": n, "limbs": l, "tag": tag}));
+        }
+        // what holds regardless: same text, equal to that text
+        d.emit(json!({"op": "str", "src": whole(0), "via": "to_string"}));
+        d.emit(json!({"op": "str", "src": whole(1), "via": "to_string"}));
+        // what the finding is about
+        d.emit(json!({"op": "eq", "x": opnd("seq", whole(0)), "y": opnd("seq", whole(1)), "tag": tag}));
+        d.emit(json!({"op": "eq", "x": opnd("slice", whole(1)), "y": opnd("slice", whole(0)), "tag": tag}));
+        d.emit(json!({"op": "hash", "x": opnd("seq", whole(1))}));
+        d.emit(json!({"op": "hash", "x": opnd("seq", whole(0)), "tag": tag}));
+        d.emit(json!({"op": "mapget", "keys": [1], "q": whole(0), "tag": tag}));
+        // the canonical one keeps behaving: equal to itself, to its copy, found in the map
+        d.emit(json!({"op": "toowned", "dst": 2, "src": whole(1), "via": "to_owned"}));
+        d.emit(json!({"op": "eq", "x": opnd("seq", whole(2)), "y": opnd("seq", whole(1))}));
+        d.emit(json!({"op": "mapget", "keys": [1], "q": whole(2)}));
+    }
+}
